@@ -99,7 +99,7 @@ LINE_SERVER = ['close', 'send', 'receive', 'poll', 'handle_get_request',
                '_service_task', '_trigger_event', 'run_handler',
                '_get_socket', '_upgrade_websocket', 'handle_request',
                'send_packet', 'transport', 'get_session', 'save_session']
-LINE_CLIENT = ['_write_loop', '_read_loop_polling', '_read_loop_websocket',
+LINE_CLIENT = ['_leave_connected_state', '_write_loop', '_read_loop_polling', '_read_loop_websocket',
                '_receive_packet', '_send_packet', 'send', 'disconnect',
                '_reset', 'connect', '_connect_polling', '_connect_websocket',
                '_trigger_event', 'run_handler', 'wait', '_send_request']
@@ -572,9 +572,10 @@ def with_lines(gen, hot=None, p=0.25, cluster=0.5, few=0.3, stall=0.35,
         if pool and rng.random() < p:
             line_decorate(rng, plan, [x for x in (hot or []) if x in pool],
                           sorted(set(pool)),
-                          stall=stall if cl is None else 0.0, stalls=stalls)
+                          stall=stall, stalls=stalls if cl is None else
+                          tuple(x for x in stalls if x <= 32))
             if plan['line'].get('stall'):
-                if rng.random() < few:
+                if cl is None and rng.random() < few:
                     few_sessions(rng, plan)
                 return plan
             if cl is None and rng.random() < few:
